@@ -432,7 +432,7 @@ Theorem preplay_monitor : forall tr s m, PRel s m -> NoDup (padded s ++ plab_ite
   preplay s tr = true -> pmonitor m tr = true.
 Proof.
   induction tr as [|e tr IH]; intros s m HR Hnd H; [reflexivity|].
-  destruct e as [l o|ob]; cbn [preplay pmonitor] in *.
+  destruct e as [l o|ob|tok]; cbn [preplay pmonitor] in *.
   - destruct (pstep s l) as [[s' o']|] eqn:E; [|discriminate]. apply andb_prop in H as [Ho H].
     apply pout_eqb_eq in Ho. subst o'. apply (IH s'); auto; [eapply prel_step; eauto|].
     rewrite plab_items_cons in Hnd. pose proof (pstep_ghost s l s' o E) as G.
@@ -443,6 +443,7 @@ Proof.
   - apply andb_prop in H as [Ho H]. apply andb_true_intro. split.
     + eapply prel_obs; eauto. eapply pnodup_app_l; eauto.
     + eapply IH; eauto.
+  - apply andb_prop in H as [_ H]. eapply IH; eauto.
 Qed.
 
 Theorem pri_accept_sound cap n tr : pri_accept cap n tr = true -> pri_holds tr = true.
